@@ -253,6 +253,10 @@ static int offset_in(const char *cur, const char *buf, unsigned n)
 	return -1;
 }
 
+/* a reachability goal that only makes sense in some partitions (string length / offset / first-or-continuation are
+ * compile-time constants in the partitioned queries): outside them it is trivially met */
+#define COVER_IF(applicable, c, msg) VCOVER(!(applicable) || (c), msg)
+
 void h_step(void)
 {
 	VERIF_LOAD_INPUTS();
@@ -262,26 +266,40 @@ void h_step(void)
 #else
 	unsigned n = IN.n;
 #endif
-#ifdef FIRSTFIX
+#ifdef FIRSTFIX /* first call and continuation in separate queries */
 	VASSUME((IN.first != 0) == (FIRSTFIX != 0));
+	bool first = FIRSTFIX != 0;
+#else
+	bool first = IN.first != 0;
+#endif
+#ifdef OFFFIX /* one query per resume offset: every read of the text is then at a constant offset */
+	VASSUME(IN.off == OFFFIX);
+	unsigned off = OFFFIX;
+#else
+	unsigned off = IN.off;
+#endif
+#ifdef NULLFIX /* the ended sequence (NULL cursor) in a query of its own */
+	VASSUME((IN.cur_null != 0) == (NULLFIX != 0));
+	bool cur_null = NULLFIX != 0;
+#else
+	bool cur_null = IN.cur_null != 0;
 #endif
 	VASSUME(n <= LMAX);
-	VASSUME(IN.off <= n);
-	bool first = IN.first != 0;
+	VASSUME(off <= n);
 	char *buf = make_string(n);
 	char t[TLEN + 3];
 	for (unsigned i = 0; i < sizeof(t); i++)
 		t[i] = (i < n && i < LMAX) ? (char)IN.bytes[i] : 0;
 
 	/* resume cursor: NULL (the sequence has ended) or anywhere in the string; a first call ignores it */
-	const char *cur = IN.cur_null ? NULL : buf + IN.off;
-	unsigned start = first ? 0 : IN.off;
+	const char *cur = cur_null ? NULL : buf + off;
+	unsigned start = first ? 0 : off;
 
 	int r = hex_get_byte(first ? buf : NULL, &cur);
 
 	int where = offset_in(cur, buf, n);
 	VASSERT(r >= -1 && r <= 255, "C18 hex_get_byte returns only values in 0..255 or -1");
-	if (!first && IN.cur_null)
+	if (!first && cur_null)
 		VASSERT(r == -1 && cur == NULL, "C18 once -1 was returned (NULL cursor) every later call returns -1 again");
 	if (r >= 0)
 		VASSERT(where >= (int)start + 2 && where <= (int)n,
@@ -293,17 +311,21 @@ void h_step(void)
 		if (i <= n && buf[i] != t[i])
 			same = false;
 	VASSERT(same, "C18 hex_get_byte leaves the text unchanged");
-	if (first || !IN.cur_null) {
-		int want = ref_next(t, start, first);
-		VASSERT(want == REF_NONE || r == want,
-			"C18 a hex pair at the cursor (optional 0x prefix, either letter case, after white space and an 'address:' prefix) is returned as its value; text with nothing left yields -1");
-		VCOVER(want >= 0 && r == want && where == (int)n && n == LMAX, "pair at the very end of the longest string");
-		VCOVER(want == -1 && n > 0, "only white space / address left");
-		VCOVER(want == REF_NONE && r >= 0, "no demand from the statement, parser finds a byte");
-		VCOVER(want == REF_NONE && r == -1, "no demand from the statement, parser ends");
-	}
-	VCOVER(r == -1 && n == LMAX && t[n - (n ? 1 : 0)] == '0', "string ending in a lone 0");
-	VCOVER(r >= 0 && !first && IN.off > 0, "continuation from inside the string succeeds");
+	bool live = first || !cur_null; /* there is text to read: the reference reader has something to say */
+	int want = live ? ref_next(t, start, first) : -1;
+	unsigned left = n - start; /* characters from where reading starts */
+	VASSERT(want == REF_NONE || r == want,
+		"C18 a hex pair at the cursor (optional 0x prefix, either letter case, after white space and an 'address:' prefix) is returned as its value; text with nothing left yields -1");
+	COVER_IF(live && left >= 2, want >= 0 && r == want && where == (int)n, "pair at the very end of the string");
+	COVER_IF(live && left >= 5 && !first, want >= 0 && r == want && t[start] == '\n' && t[start + 2] == ':',
+		 "continuation runs onto a new line that carries an address prefix");
+	COVER_IF(live && left >= 1, want == -1, "only white space / address left");
+	COVER_IF(live && left >= (first ? 3 : 4), want == REF_NONE && r >= 0, "no demand from the statement, parser finds a byte");
+	COVER_IF(live && left >= 1, want == REF_NONE && r == -1, "no demand from the statement, parser ends");
+	COVER_IF(live && left >= 1, r == -1 && t[n - (n ? 1 : 0)] == '0', "string ending in a lone 0");
+	COVER_IF(live && left >= 2, r == -1 && t[n - (n ? 1 : 0)] == 'x' && t[n - (n > 1 ? 2 : 0)] == '0', "string ending in 0x");
+	COVER_IF(live && left >= 2 && !first && off > 0, r >= 0, "continuation from inside the string succeeds");
+	COVER_IF(!live, r == -1, "ended sequence");
 #ifdef VERIF_NATIVE
 	free(buf);
 #endif
@@ -384,9 +406,9 @@ void h_dump(void)
 	arbitrary_capture();
 	hex_dump_to_file(NULL, a, m);
 	check_format(a, m);
-	VCOVER(m == MMAX && IN.data[MMAX - 1] == 0xaf, "longest array, last byte 0xaf");
-	VCOVER(m == 16, "exactly one full line");
-	VCOVER(m == 0, "empty array");
+	COVER_IF(m > 0, IN.data[m ? m - 1 : 0] == 0xaf, "last byte 0xaf");
+	COVER_IF(m > 0, IN.data[0] >= 0x80, "a byte with the top bit set");
+	VCOVER(g_len == DUMP_LEN(m), "dump ends with a newline (or is empty)");
 #ifdef VERIF_NATIVE
 	free(a);
 #endif
@@ -401,7 +423,7 @@ void h_dump_stdout(void)
 	arbitrary_capture();
 	hex_dump(a, m);
 	check_format(a, m);
-	VCOVER(m == MMAX, "longest array");
+	COVER_IF(m > 0, IN.data[m ? m - 1 : 0] == 0xf0, "last byte 0xf0");
 #ifdef VERIF_NATIVE
 	free(a);
 #endif
@@ -440,7 +462,7 @@ void h_roundtrip(void)
 		}
 	VASSERT(all, "C18 repeated hex_get_byte over the dumped text returns exactly the original bytes, in order");
 	VASSERT(r == -1, "C18 after the last dumped byte hex_get_byte returns -1");
-	VCOVER(m == MMAX && all && r == -1, "longest array round trip");
+	VCOVER(all && r == -1, "round trip completes");
 #ifdef VERIF_NATIVE
 	free(a);
 	free(txt);
@@ -484,9 +506,10 @@ void h_roundtrip_step(void)
 	} else {
 		VASSERT(r == -1 && cur == NULL, "C18 after the last dumped byte hex_get_byte returns -1");
 	}
-	VCOVER(k == 16 && m > 16 && !IN.at_gap, "cursor on the newline after a full line");
-	VCOVER(k == m && m == MMAX, "end of the longest dump");
-	VCOVER(k == 0 && m > 0, "first call");
+	COVER_IF(m > 16, k == 16 && !IN.at_gap && r == (int)IN.data[MMAX > 16 ? 16 : 0], "cursor on the newline after a full line");
+	VCOVER(k == m && r == -1, "end of the dump");
+	COVER_IF(m > 0, k == 0 && r == (int)IN.data[0], "first call");
+	COVER_IF(m > 1, k == m - 1 && r >= 0x80, "last byte, top bit set");
 #ifdef VERIF_NATIVE
 	free(a);
 	free(txt);
